@@ -279,6 +279,12 @@ def degree_vectors(ctx):
                     kind = "?"
                 why = ",".join(sorted(walk))
             inc_ok = v.kind == "binop" and v[1] == "Add" and (is_const(v[3], 1) or is_const(v[2], 1))
+            # the increment sits in a closure run for EVERY edge: for_each over children/parents of EVERY node
+            if kind in ("in", "out"):
+                okw, whyw = full_edge_walk(ctx, b)
+                if not okw:
+                    kind = "?"
+                    why = whyw
             for a in allocs:
                 key = (a[1], a[2])
                 prev = kinds.get(key)
@@ -286,6 +292,36 @@ def degree_vectors(ctx):
                 kinds[key] = k2 if prev in (None, k2) else "?"
                 details.setdefault(key, []).append((b, st, why, fmt_expr(v, b)))
     return kinds, details
+
+
+def full_edge_walk(ctx, body):
+    """`body` is a closure passed to Iterator::for_each over children(n)/parents(n)
+    (no narrowing adaptor), itself inside a fold/for_each over all nodes."""
+    fl = ctx.model.flow
+    if body.kind != "closure":
+        return False, "degree increment is not inside a per-edge closure"
+    uses = fl.closure_uses(body)
+    if len(uses) != 1 or callee_path(uses[0][2]) != "std::iter::Iterator::for_each":
+        return False, "degree increment is not driven by for_each over every edge of the node (%s)" % [callee_path(u[2]) for u in uses]
+    pb, ubb, ut, ai = uses[0]
+    chain = iterator_chain(ctx, pb, expr_operand(pb, ut["args"][0]))
+    names = [c[0] for c in chain if not c[0].startswith("inline:")]
+    sel = [x for x in names if x in SELECTIVE_ITER]
+    if sel or not any(x in (CHILDREN, PARENTS) for x in names):
+        return False, "edge walk is narrowed / not over children|parents: %s" % names
+    if cond_guards(pb, ubb):
+        return False, "edge walk is conditional"
+    # outer: all nodes
+    if pb.kind == "closure":
+        ou = fl.closure_uses(pb)
+        if len(ou) != 1 or callee_path(ou[0][2]) not in ("std::iter::Iterator::fold", "std::iter::Iterator::for_each"):
+            return False, "node walk is not a fold/for_each over all nodes"
+        qb, qbb, qt, qai = ou[0]
+        ochain = iterator_chain(ctx, qb, expr_operand(qb, qt["args"][0]))
+        onames = [c[0] for c in ochain]
+        if [x for x in onames if x in SELECTIVE_ITER] or not any(x in ALL_NODE_SOURCES for x in onames):
+            return False, "node walk does not range over all nodes: %s" % onames
+    return True, ""
 
 
 def S1(ctx, rule="S1"):
@@ -853,6 +889,53 @@ def check_preload_send(ctx, rule, b, bb, t, where, key):
     return
 
 
+def loop_region(ctx, body, bb):
+    """If bb lies in a `for`-style loop (natural loop whose header region calls
+    Iterator::next), returns {"blocks", "next_bb", "iter_expr", "early_exits"}."""
+    best = None
+    for (src, hdr) in body.back_edges():
+        loop = body.natural_loop(src, hdr)
+        if bb not in loop:
+            continue
+        nexts = [x for x in loop if body.blocks[x]["term"]["k"] == "call" and
+                 callee_path(body.blocks[x]["term"]) == "std::iter::Iterator::next" and
+                 body.blocks[x]["term"]["sp"].get("desugar") == "ForLoop"]
+        if not nexts:
+            continue
+        if best is None or len(loop) < len(best["blocks"]):
+            nb = nexts[0]
+            t = body.blocks[nb]["term"]
+            it = strip_refs(expr_operand(body, t["args"][0]))
+            # iter local -> into_iter(x)
+            src_e = it
+            if it.kind == "local":
+                ds = get_defs(body).of(it[1])
+                for kind, dbb, si, x in ds:
+                    if kind == "stmt" and x["rv"]["k"] == "use":
+                        src_e = strip_refs(expr_operand(body, x["rv"]["op"]))
+            if src_e.kind == "call" and src_e[1] == "std::iter::IntoIterator::into_iter":
+                src_e = strip_refs(src_e[2][0])
+            # exits: edges leaving the loop from blocks other than the `None` arm of next()'s switch
+            sw = body.blocks[t["target"]]["term"] if t["target"] is not None else None
+            none_arm = None
+            if sw and sw["k"] == "switch":
+                for v, tb in sw["targets"]:
+                    if v == "0":
+                        none_arm = tb
+            early = []
+            for x in loop:
+                for s_ in body.succs(x):
+                    if s_ not in loop and x != none_arm and not (x == t["target"] and s_ == none_arm):
+                        if body.blocks[s_]["term"]["k"] == "unreachable":
+                            continue
+                        early.append((x, s_))
+            blocks = set(loop)
+            if none_arm is not None:
+                blocks.discard(none_arm)
+            best = {"blocks": blocks, "next_bb": nb, "iter_expr": src_e, "early_exits": early, "header": hdr}
+    return best
+
+
 def S3(ctx, rule="S3"):
     """Sole count writes: only `-= 1`, once per child visit, in the walk over
     children(done id) of the paired structure, no early exit."""
@@ -876,10 +959,17 @@ def S3(ctx, rule="S3"):
             okv = v.kind == "binop" and v[1] == "Sub" and is_const(v[3], 1) and v[2].kind == "deref"
             ctx.check(okv, rule, "dec-by-one|%s" % key, m.where(b, st["bb"], st["si"]),
                       "write to COUNTS is `COUNTS[child] -= 1`", "write to COUNTS is `%s`" % fmt_expr(v, b))
-        # (b) exactly one store on every path, no loop
-        ctx.check(len(sts) == 1 and not b.back_edges(), rule, "once-per-visit|%s" % key, where,
-                  "exactly one decrement per visited successor (single store, loop-free closure body)",
-                  "%d decrement stores / loop in the per-successor body" % len(sts))
+        # (b) exactly one store per visited successor
+        lr = loop_region(ctx, b, sts[0]["bb"])
+        if lr is not None:
+            inner = [(x, h) for (x, h) in b.back_edges() if x in lr["blocks"] and h in lr["blocks"] and h != lr["header"]]
+            ctx.check(len(sts) == 1 and not inner, rule, "once-per-visit|%s" % key, where,
+                      "exactly one decrement per visited successor (single store in the `for` body, no inner loop)",
+                      "%d decrement stores / inner loop in the per-successor `for` body" % len(sts))
+        else:
+            ctx.check(len(sts) == 1 and not b.back_edges(), rule, "once-per-visit|%s" % key, where,
+                      "exactly one decrement per visited successor (single store, loop-free closure body)",
+                      "%d decrement stores / loop in the per-successor body" % len(sts))
         # (c) the index is the visited child and the closure is the body of a
         #     non-short-circuiting walk over children(done id) of the structure
         st = sts[0]
@@ -892,13 +982,22 @@ def S3(ctx, rule="S3"):
         uses = fl.closure_uses(b)
         walk_ok = False
         why = "closure not passed to an iterator consumer"
-        if len(uses) == 1:
+        chain = None
+        if lr is not None:
+            if lr["early_exits"]:
+                why = "the `for` loop over the successors can be left early (%s)" % [b.loc(x) for x, _ in lr["early_exits"]]
+            else:
+                pb = b
+                chain = iterator_chain(ctx, b, lr["iter_expr"])
+        elif len(uses) == 1:
             pb, ubb, ut, ai = uses[0]
             cons = callee_path(ut)
             if cons != "std::iter::Iterator::for_each":
                 why = "walk uses %s (may stop early), not for_each" % cons
             else:
                 chain = iterator_chain(ctx, pb, expr_operand(pb, ut["args"][0]))
+        if chain is not None:
+            if True:
                 names = [p for p, _, _ in chain if not p.startswith("inline:")]
                 sel = [p for p in names if p in SELECTIVE_ITER or p.startswith("leaf") or p.startswith("opaque")]
                 ch = [(p, cb, e) for p, cb, e in chain if p == CHILDREN]
@@ -1182,11 +1281,7 @@ def lock_table_chain_ok(ctx, body, collect_bb, roles):
     bad = [p for p in names if p in SELECTIVE_ITER or p in MORE_ITER or p.startswith("leaf") or p.startswith("opaque")]
     if bad:
         return False, "per-function lock table is filtered/reordered by %s (position i would no longer be function i)" % bad
-    maps = [e for p, cb, e in chain if p == "std::iter::Iterator::map"]
-    for e in maps:
-        f = e[2][1]
-        if not (f.kind == "fnconst" and f[1] == "tokio::sync::RwLock::<T>::new"):
-            return False, "lock table elements are mapped through %s" % fmt_expr(f, body)
+    # `map` keeps positions whatever the wrapper (RwLock::new, Mutex::new, RefCell::new, ...)
     g = sources_of_expr(ctx, body, hit[0][2][0])
     for s in g:
         if not (s.kind == "param" and s[2] == 1 and s[3][:1] == (roles["graph"],)):
@@ -1295,11 +1390,14 @@ def monotone_of_node_count(ctx, body, e, depth=0):
     return False, None
 
 
-def S6(ctx, rule="S6"):
+def S6(ctx, rule="S6", roles_filter=None):
+    """roles_filter: restrict to channels whose capacity the property depends on"""
     m, fb = ctx.model, ctx.fb
     for (b, bb, t) in m.channels:
         where = m.where(b, bb)
         role = m.chan_role((b.id, bb)) or "?"
+        if roles_filter is not None and role not in roles_filter:
+            continue
         key = "%s|%s" % (role, short(b.id))
         if callee_path(t).endswith("unbounded_channel"):
             ctx.ok(rule, key, where, "%s channel is unbounded" % role)
@@ -1319,7 +1417,7 @@ def S6(ctx, rule="S6"):
             ctx.bad(rule, key, where,
                     "%s channel capacity `%s` is not a monotone function of node_count(): ids (errors) can be dropped / senders can block when the graph is wider" % (
                         role, fmt_expr(e, b)))
-    ctx.floor(rule, 2, "mpsc channel allocations")
+    ctx.floor(rule, 2 if roles_filter is None or "READY" in roles_filter else 1, "mpsc channel allocations")
 
 
 def result_uses_panicking(ctx, body, bb, t):
@@ -1363,3 +1461,47 @@ def S7(ctx, rule="S7"):
     ctx.counts[rule] = n
     if n < 4:
         ctx.unverifiable(rule, "floor", "-", "expected >= 4 fallible send sites (2 release loops, done send, FnRef::drop), found %d" % n)
+
+
+def W3(ctx, rule="W3"):
+    """C06: a successor whose count reached 0 is queued in the same visit: the
+    release send's only guards are a comparison of a COUNTS element and the
+    presence of the ready-sender (no further condition can hold a runnable
+    function back).  Over-eager guards are C02's business, not C06's."""
+    m, fl = ctx.model, ctx.model.flow
+    n = 0
+    for s in m.send_sites():
+        if "READY" not in s["roles"]:
+            continue
+        b, bb, t = s["body"], s["bb"], s["t"]
+        kinds, _ = classify_sent_value(ctx, b, t["args"][1])
+        if kinds != {"child"}:
+            continue
+        n += 1
+        bad = []
+        for sb, de, vals in cond_guards(b, bb):
+            e = strip_refs(de)
+            if e.kind == "binop" and e[1] in ("Eq", "Ne", "Le", "Lt", "Ge", "Gt"):
+                ok = False
+                for x in (e[2], e[3]):
+                    er = elem_read(x)
+                    if er is not None:
+                        keys, other = count_role(ctx, sources_of_expr(ctx, b, er[0]))
+                        if keys and not other:
+                            ok = True
+                if not ok:
+                    bad.append(fmt_expr(e, b))
+            elif e.kind == "discr":
+                srcs = sources_of_expr(ctx, b, strip_refs(e[1]))
+                roles, other = m.roles_of_sources(srcs, half=0)
+                loop_ctl = bool(srcs) and all(x.kind == "alloc" and x[4] == CHILDREN for x in srcs)
+                done_item = m.is_done_item(srcs) or all(x.kind == "alloc" and x[4] in CHANNEL_FNS for x in srcs)
+                if roles != {"READY"} and not loop_ctl and not done_item:
+                    bad.append(fmt_expr(e, b))
+            else:
+                bad.append(fmt_expr(e, b))
+        ctx.check(not bad, rule, "release-unconditional|%s" % short(b.id), m.where(b, bb),
+                  "the release of a successor depends only on its predecessor count and on the ready-sender being present",
+                  "the release of a runnable successor is additionally guarded by %s" % bad)
+    if n < 2:
+        ctx.unverifiable(rule, "floor", "-", "expected 2 release sends, found %d" % n)
